@@ -9,8 +9,10 @@ checks = []
 na = []
 for p in props:
     pid = p["id"]
-    if pid in claimed and pid in meta["checks"]:
-        m = meta["checks"][pid]
+    cfgp = os.path.join(V, "props", pid + ".json")
+    cfg = json.load(open(cfgp)) if os.path.exists(cfgp) else {}
+    if pid in claimed and "manifest" in cfg:
+        m = cfg["manifest"]
         checks.append({
             "property_id": pid,
             "quick_cmd": f"bin/check {pid} --tier quick",
